@@ -350,15 +350,23 @@ func parseGroup(mp *msgParser, tags []Tag) {
 				fields = getGroupFields(mp.msg, searchTags, mp.appDataDictionary)
 				continue
 			}
-			if len(tags) > 1 {
-				searchTags = tags[:len(tags)-1]
-			}
-			// Did this tag occur after a nested group and belongs to the parent group.
-			if isNumInGroupField(mp.msg, searchTags, mp.appDataDictionary) {
-				// Add the field member to the group.
+			// Did this tag occur after a nested group and belongs to an enclosing group.
+			returned := false
+			for n := len(tags) - 1; n >= 1 && !returned; n-- {
+				parentFields := getGroupFields(mp.msg, tags[:n], mp.appDataDictionary)
+				if !isGroupMember(mp.parsedFieldBytes.tag, parentFields) {
+					continue
+				}
+				// Add the field member to the group and continue parsing the enclosing group.
 				dm = append(dm, *mp.parsedFieldBytes)
-				// Continue parsing the parent group.
-				fields = getGroupFields(mp.msg, searchTags, mp.appDataDictionary)
+				tags, fields = tags[:n], parentFields
+				if isNumInGroupField(mp.msg, append(tags, mp.parsedFieldBytes.tag), mp.appDataDictionary) {
+					tags = append(tags, mp.parsedFieldBytes.tag)
+					fields = getGroupFields(mp.msg, tags, mp.appDataDictionary)
+				}
+				returned = true
+			}
+			if returned {
 				continue
 			}
 			// Add the repeating group.
